@@ -315,6 +315,59 @@ def run_k_harness(crate, harness, label, flags=None, timeout=900, playback=False
     return res
 
 
+
+# --------------------------------------------------------------------------------------------------
+# Engine N — native bounded stand-ins (plain cargo programs over the real crates; labelled bounded, never counted as proved)
+# --------------------------------------------------------------------------------------------------
+
+NATIVE_DIR = os.path.join(VERIF, 'native')
+
+
+def run_native(name, label, args=None, timeout=900):
+    """builds /verif/native/<name> against /repo's current tree and runs it: exit 0 = held on the whole stated domain,
+    exit 1 = a concrete failing value was found (printed), anything else = undecided."""
+    d = os.path.join(NATIVE_DIR, name)
+    tgt = os.path.join(BUILD, 'native-target', name)
+    os.makedirs(tgt, exist_ok=True)
+    lock = os.path.join(REPO, 'Cargo.lock')
+    if os.path.exists(lock) and not os.path.exists(os.path.join(d, 'Cargo.lock')):
+        shutil.copy(lock, os.path.join(d, 'Cargo.lock'))
+    res = dict(engine='native', crate=name, harness=name, label=label, cmd=f'cargo run --offline (native/{name}) ' + ' '.join(args or []),
+               status='ok', checks=0, failed=0, failed_checks=[], undecided=[], wall_s=0.0, verification_s=None, playback=None)
+    rc, out, err, dt = sh(['cargo', 'build', '--offline', '--target-dir', tgt], cwd=d, timeout=timeout)
+    if rc != 0:
+        res['status'] = 'undecided'
+        res['undecided'].append('native stand-in does not build against the current tree: ' + (err.strip().split('\n')[-1] if err.strip() else 'build error'))
+        res['wall_s'] = dt
+        return res
+    binname = None
+    for ln in open(os.path.join(d, 'Cargo.toml')):
+        mo = re.match(r'\s*name\s*=\s*"([^"]+)"', ln)
+        if mo:
+            binname = mo.group(1)
+            break
+    exe = os.path.join(tgt, 'debug', binname)
+    rc2, out2, err2, dt2 = sh([exe] + (args or []), cwd=d, timeout=timeout)
+    res['wall_s'] = dt + dt2
+    res['verification_s'] = round(dt2, 2)
+    logd = os.path.join(BUILD, 'k', 'native')
+    os.makedirs(logd, exist_ok=True)
+    open(os.path.join(logd, name + '.log'), 'w').write(out2 + '\n--- stderr ---\n' + err2)
+    mo = re.search(r'checked (\d+)', out2)
+    if mo:
+        res['checks'] = int(mo.group(1))
+    if rc2 == 0:
+        return res
+    if rc2 == 1 and 'VIOLATED' in out2:
+        res['status'] = 'violation'
+        res['failed'] = 1
+        res['failed_checks'] = [dict(description=ln.strip(), file=f'native/{name}', line=0) for ln in out2.split('\n') if ln.strip()][:6]
+        res['playback'] = '\n'.join(ln for ln in out2.split('\n') if ln.strip())[:2000]
+        return res
+    res['status'] = 'undecided'
+    res['undecided'].append(f'native stand-in exited with {rc2}: ' + (err2.strip().split('\n')[-1] if err2.strip() else out2[-200:]))
+    return res
+
 # --------------------------------------------------------------------------------------------------
 # known findings
 # --------------------------------------------------------------------------------------------------
